@@ -233,11 +233,18 @@ def rule_val1(A: Analysis, rep):
         for n in raises["InvalidTaskParameterType"]:
             gs = A.path_guards(g, g.entry, n, v)
             conds.append(sorted({a for c in gs for a, p in c if "isinstance" in a or "all(" in a}))
+        conds = []
+        for n in raises["InvalidTaskParameterType"]:
+            gs = A.path_guards(g, g.entry, n, v, xstop=[arg])
+            conds.append(sorted({a for c in gs for a, p in c if "isinstance" in a or "all(" in a}))
         flat = {a for c in conds for a in c}
-        ok = {"t(isinstance(%s[parameter], list))" % arg, "t(all(item_valid))", "t(isinstance(%s[parameter], expected_type))" % arg} <= flat
+        elem = "t(all((isinstance(_v0, expected_type[0]) for _v0 in %s[parameter])))" % arg
+        ok = {"t(isinstance(%s[parameter], list))" % arg, elem, "t(isinstance(%s[parameter], expected_type))" % arg} <= flat
     rep.check(ok, "VAL1", "wrong types rejected (element-wise for lists)", v.node, "", "the validator's type checks changed (%s)" % {k: len(x) for k, x in raises.items()})
-    iv = A.single_def_value(v, "item_valid")
-    rep.check(iv is not None and norm(iv) == "map(lambda el: isinstance(el, expected_type[0]), %s[parameter])" % arg, "VAL1", "list elements checked against the declared element type", v.node, "", "item_valid is `%s`" % (norm(iv) if iv is not None else "?"))
+    alls = [c for c in walk_local(v.node) if isinstance(c, ast.Call) and isinstance(c.func, ast.Name) and c.func.id == "all" and len(c.args) == 1]
+    want_all = "all((isinstance(_v0, expected_type[0]) for _v0 in %s[parameter]))" % arg
+    rep.check(any(A.ctext(c, v) == want_all for c in alls), "VAL1", "list elements checked against the declared element type", v.node, "all(isinstance(el, expected_type[0]) for el in arguments[parameter])",
+              "list elements are checked with %s" % [A.ctext(c, v) for c in alls])
     ok = "UnrecognizedTaskParameters" in raises
     if ok:
         n = raises["UnrecognizedTaskParameters"][0]
@@ -251,7 +258,7 @@ def rule_val1(A: Analysis, rep):
     nm = [n for n in g.nodes if n.kind == "stmt" and isinstance(n.ast, ast.Raise) and "InvalidTaskName" in norm(n.ast)]
     merged = A.single_def_value(lf, "args")
     ok = bool(val) and bool(rets) and all(g.all_paths_pass(g.entry, r, val, skip_labels=skip) for r in rets) and len(nm) == 1 and \
-        A.path_guards(g, g.entry, nm[0], lf) == [frozenset({("t(TaskIdentifier.is_name_valid(args['name']))", False)})] and \
+        A.path_guards(g, g.entry, nm[0], lf, xstop=["args"]) == [frozenset({("t(TaskIdentifier.is_name_valid(args['name']))", False)})] and \
         merged is not None and norm(merged) == "{**self._defaults, **kwargs}"
     rep.check(ok, "VAL1", "definitions are validated, named validly, defaults overridden by the user's values", lf.node, "", "load_from_cond_file no longer validates (schema, then name) the merged arguments")
     rt = A.fn("task_types.raw.RawTaskType.__init__")
@@ -270,8 +277,19 @@ def rule_val1(A: Analysis, rep):
         ok = len(rs) == 1 and isinstance(rs[0]._parent, ast.If)
         if ok:
             d = A.dnf(rs[0]._parent.test, True, fr)
-            kinds = sorted(a.split(", ")[-1].rstrip("))") for c in d for a, p in c if not p)
-            ok = len(d) == 1 and kinds == ["bool", "float", "int", "str"]
+            kinds = []
+            for c in d:
+                for a, p in c:
+                    if p or not a.startswith("t(isinstance("):
+                        kinds.append("?")
+                        continue
+                    ty = a[len("t(isinstance("):-2].split(", ", 1)[-1]
+                    if ty.startswith("("):
+                        kinds.extend(x.strip() for x in ty.strip("()").split(","))
+                    else:
+                        els = A.const_elements(fr.module, ty)
+                        kinds.extend(els if els is not None else [ty])
+            ok = len(d) == 1 and sorted(kinds) == ["bool", "float", "int", "str"]
         rep.check(ok, "VAL1", "%s: only str/bool/int/float values" % cls.rsplit(".", 1)[1], fr.node, "", "the primitive-value check changed")
     fo = A.fn("utils.run_options.RunOptions.from_raw")
     rs = [x for x in walk_local(fo.node) if isinstance(x, ast.Raise) and "RunOptionsNonStringKey" in norm(x)]
